@@ -1459,13 +1459,6 @@ impl PeerConnection {
             }
         }
 
-        // Update next_mid to avoid collisions with remote MIDs
-        for section in &desc.media_sections {
-            if let Ok(mid_val) = section.mid.parse::<u16>() {
-                self.inner.next_mid.fetch_max(mid_val + 1, Ordering::SeqCst);
-            }
-        }
-
         {
             let state = &self.inner.signaling_state;
             match desc.sdp_type {
@@ -1499,6 +1492,13 @@ impl PeerConnection {
                 SdpType::Rollback => {
                     return Err(RtcError::NotImplemented("rollback"));
                 }
+            }
+        }
+
+        // Update next_mid to avoid collisions with remote MIDs
+        for section in &desc.media_sections {
+            if let Ok(mid_val) = section.mid.parse::<u16>() {
+                self.inner.next_mid.fetch_max(mid_val + 1, Ordering::SeqCst);
             }
         }
 
